@@ -5,7 +5,7 @@ use crate::common::{Ctx, Out, Rng};
 use crate::sx::{self, Sx};
 use metrique::unit_of_work::metrics;
 use metrique::writer::{Entry, EntrySink};
-use metrique::{AppendAndCloseOnDrop, AppendAndCloseOnDropHandle, CloseValue, FlushGuard, ForceFlushGuard, RootEntry};
+use metrique::{AppendAndCloseOnDrop, AppendAndCloseOnDropHandle, CloseValue, FlushGuard, ForceFlushGuard};
 use metrique_writer::sink::FlushWait;
 use metrique_writer::test_util::to_test_entry;
 use std::sync::atomic::{AtomicUsize, Ordering::SeqCst};
@@ -276,7 +276,7 @@ pub fn current_step() -> usize {
 thread_local! {
     static CUR: RefCell<Option<(Arc<Sched>, usize)>> = const { RefCell::new(None) };
 }
-/// Yield-only mode for free-running stress: a sync point becomes a seeded number of `yield_now`s.
+// Yield-only mode for free-running stress: a sync point becomes a seeded number of `yield_now`s.
 thread_local! {
     static PERTURB: RefCell<Option<Rng>> = const { RefCell::new(None) };
 }
